@@ -181,6 +181,10 @@ impl Scratch {
 }
 impl Drop for Scratch {
     fn drop(&mut self) {
+        if std::env::var("WVERIF_KEEP_SCRATCH").is_ok() {
+            eprintln!("scratch kept: {}", self.path.display());
+            return;
+        }
         let _ = std::fs::remove_dir_all(&self.path);
     }
 }
